@@ -112,6 +112,10 @@ def tlc_model(spec, cfg, work, workers=8, timeout=900, extra_args=None, env=None
     violated = re.findall(r"Error: Invariant (\w+) is violated", out) + re.findall(r"Error: Action property (\w+) is violated", out) \
         + re.findall(r"Error: Temporal properties were violated", out)
     if not ok and not violated:
+        if workers != 1 and "TLC threw an unexpected exception" in out:
+            # seen once in ~10^3 runs of a violating variant with several workers (an exception raised by a worker that
+            # is still evaluating while another one reports the violation): repeat deterministically with one worker
+            return tlc_model(spec, cfg, work, workers=1, timeout=timeout, extra_args=extra_args, env=env)
         raise ToolError("TLC failed on %s/%s:\n%s" % (spec, cfg, out[-5000:]))
     return {"ok": ok and not violated, "out": out, "generated": g, "distinct": d, "violated": violated}
 
